@@ -3,7 +3,7 @@ from __future__ import annotations
 
 import hashlib
 
-from common import hx, unhx, exc_kind
+from common import ImplementationHang, hx, unhx, exc_kind
 
 REQUIRED = [
     "Swh.C19.names_unique",
@@ -91,7 +91,12 @@ def check_cases(ctx, cases):
         entries = tuple(model.DirectoryEntry(name=n, type=t, perms=p, target=g) for n, t, p, g in es)
         reqs.append({"op": "dedup", "entries": case["entries"]})
         try:
-            flag, d = model.Directory.from_possibly_duplicated_entries(entries=entries)
+            with ctx.time_limit(5):
+                flag, d = model.Directory.from_possibly_duplicated_entries(entries=entries)
+        except ImplementationHang as e:
+            ctx.fail(case, f"the repair constructor does not return ({e})", "repair-does-not-terminate")
+            impls.append(None)
+            continue
         except Exception as e:
             ctx.fail(case, f"the repair constructor raises {type(e).__name__}: {e}", "repair-raises:" + exc_kind(e))
             impls.append(None)
